@@ -89,12 +89,28 @@ static bool sinv(void)
 	return true;
 }
 
+static bool reached_established;
+static time_t t_start, t_established;
+static uint8_t last_query_type;
+
 static void spend(void)
 {
 	if (S.state != RTR_SHUTDOWN)
 		VASSERT(sinv(), "fsm: socket invariant SInv is re-established at every step (inductive)");
+	if (S.state == RTR_ESTABLISHED && !reached_established) {
+		reached_established = true;
+		t_established = env_now;
+	}
 	if (budget > 0)
 		budget--;
+#ifdef GOOD_ENV
+	if (budget == 0) {
+		VASSERT(reached_established, "C08 (L3): once the cache answers correctly the socket reaches ESTABLISHED within the step bound");
+		if (reached_established)
+			VASSERT((int64_t)t_established - (int64_t)t_start <= 2 * (int64_t)S.retry_interval,
+				"C08 (L3): ... within two retry intervals of protocol time");
+	}
+#endif
 	if (budget == 0)
 		S.state = RTR_SHUTDOWN;
 }
@@ -105,6 +121,9 @@ int lrtr_get_monotonic_time(time_t *seconds)
 	uint32_t adv = ND(uint32_t, "clock.advance");
 
 	VASSUME(adv <= 400000);
+#ifdef GOOD_ENV
+	VASSUME(adv == 0);
+#endif
 	env_now += adv;
 	env_last_read_failed = false;
 #ifdef CLOCK_MAY_FAIL
@@ -123,6 +142,9 @@ unsigned int sleep(unsigned int seconds)
 	uint32_t extra = ND(uint32_t, "sleep.extra");
 
 	VASSUME(extra <= 400000);
+#ifdef GOOD_ENV
+	VASSUME(extra == 0);
+#endif
 	env_now += (time_t)seconds + extra;
 	slept_since_open = true;
 	VASSERT(!expect_serial_query, "C17 fsm: a Serial Query follows a Serial Notify / refresh timeout immediately");
@@ -190,6 +212,9 @@ int tr_open(struct tr_socket *t)
 	slept_since_open = false;
 	version_at_last_open = S.version;
 	spend();
+#ifdef GOOD_ENV
+	return TR_SUCCESS;
+#endif
 	return ND_BOOL("open.fails") ? TR_ERROR : TR_SUCCESS;
 }
 
@@ -220,6 +245,7 @@ static void on_query(const uint8_t *b, unsigned int len)
 		VASSERT(b[1] == RESET_QUERY, "C05 fsm: without a valid completed synchronisation the query is a Reset Query");
 	}
 #endif
+	last_query_type = b[1];
 	if (expect_serial_query) {
 		VASSERT(b[1] == SERIAL_QUERY, "C17 fsm: Serial Notify / refresh timeout is answered with a Serial Query");
 		expect_serial_query = false;
@@ -250,6 +276,10 @@ int stub_rtr_sync(struct rtr_socket *s)
 	uint8_t out = ND(uint8_t, "sync.outcome");
 
 	VASSUME(out <= 7);
+#ifdef GOOD_ENV
+	/* a cache that answers correctly: data for a Reset Query; data or Cache Reset for a Serial Query */
+	VASSUME(got_pdu && adv == 0 && (out == 0 || (out == 4 && last_query_type == SERIAL_QUERY)));
+#endif
 	if (out == 0) { /* success: Cache Response (session) ... End of Data (serial) */
 		VASSUME(got_pdu);
 		if (s->request_session_id)
@@ -283,7 +313,10 @@ int stub_rtr_sync(struct rtr_socket *s)
 		s->is_resetting = false;
 	if (s->request_session_id && ND_BOOL("sync.cr_seen"))
 		s->session_id = ND(uint16_t, "sync.session");
-	if (ND_BOOL("sync.purged")) { /* undo impossible: everything of this cache removed, Reset Query next */
+	if (ND_BOOL("sync.purged")) {
+#ifdef GOOD_ENV
+		VASSUME(0);
+#endif /* undo impossible: everything of this cache removed, Reset Query next */
 		g_has_pfx = g_has_spki = false;
 		s->request_session_id = true;
 		g_has = false;
@@ -332,6 +365,9 @@ int stub_wait(struct rtr_socket *s)
 	uint8_t out = ND(uint8_t, "wait.outcome");
 
 	VASSUME(out <= 3);
+#ifdef GOOD_ENV
+	VASSUME(out == 0 && adv == 0);
+#endif
 	if (out == 0) { /* Serial Notify or refresh timer expired */
 		expect_serial_query = (s->state != RTR_SHUTDOWN);
 		return RTR_SUCCESS;
@@ -395,7 +431,13 @@ static void arbitrary_socket(void)
 	g_sn = S.serial_number;
 	g_sinv_pending = true;
 	w_sock = &S;
+#ifdef GOOD_ENV
+	w_send_may_fail = false;
+#else
 	w_send_may_fail = true;
+#endif
+	reached_established = false;
+	t_start = env_now;
 	n_open = 0;
 	slept_since_open = false;
 	expect_serial_query = false;
